@@ -87,6 +87,20 @@ def run(res, prop, tier, seed, work, replay=None):
         e["hist"] += 100000
         es.append(e)
     mism, states, cmd = validate_edges(work, es)
+    # the pool operations of the same histories: PoolRecords.tla owns clauses of these properties too (a transaction admitted
+    # to the pool although the coin-hour rule alone forbids it is C03's)
+    pool_file = os.path.join(out2, "pool.ndjson")
+    pwork = os.path.join(work, "poolrecs")
+    os.makedirs(pwork, exist_ok=True)
+    pst, pmism = vlib.validate_records(SPEC, "PoolRecords", "PoolRecords.cfg", pwork, pool_file, chunk=1500, data_name="pool.ndjson", with_reason=True)
+    for i, (r, parts) in enumerate(pmism):
+        for clause in parts[1].split("+"):
+            who, _, what = clause.partition(":")
+            sig = "pool:%s:%s" % (r["ev"], what)
+            rp = vlib.save_replay(work, "%s_pool_h%d_s%d.json" % (who, r["hist"], r["step"]),
+                                  {"engine": "ledger", "signature": sig, "seed": seed, "tier": tier, "record": r}) if who == prop and i < 40 else ""
+            res.mismatch(who, sig, "pool history %d step %d node %s: %s %s -> real result %s %s; TxPool.tla disagrees on: %s"
+                         % (r["hist"], r["step"], r["node"], r["ev"], r.get("kind", ""), r["res"], r.get("err", "")[:80], what), rp)
     dead = 0
     for idx, mut, reason in mism:
         e = es[idx]
